@@ -672,6 +672,8 @@ class IH5Group(IH5InnerNode):
         return h5_copy_from_to(src_node, cast(Any, dst_group), dst_name, **kwargs)
 
     def move(self, source: str, dest: str):
+        if source == dest:
+            return  # nothing to do (like h5py)
         self.copy(source, dest)
         del self[source]
 
